@@ -221,7 +221,9 @@ PhaseObs ==
        IN /\ Chk(okNodes, "nodes after call", Keys, o.nodes)
           /\ Chk(okCps, "checkpoints after call", <<just, fin, pin>>, <<o.just, o.fin, o.pin>>)
           /\ IF devHead THEN Deviation("fc-gap-start") ELSE Chk(okHead, "head after call", HeadOf(c, FALSE), o.head)
-          /\ Chk(~(okHead \/ devHead) \/ okTable, "node table after Head", [i \in Idx |-> ExpRow(i)], o.table)
+          \* the internal table is only consulted to LOCALISE a wrong head (diagnostic, never a verdict): when the head
+          \* is right it is not evaluated at all (it costs O(nodes^2) per observation)
+          /\ Chk((okHead \/ devHead) \/ okTable, "node table after Head", [i \in Idx |-> ExpRow(i)], o.table)
           /\ Advance /\ UNCHANGED <<nodes, votes, bal, just, fin, pin, detached, poison, nilsink>>
 
 TraceNext ==
